@@ -243,10 +243,13 @@ def ddmin_steps(mod, trace, clause, sig, max_runs=150):
 
 
 def finding_matches(mod, finding, vj) -> bool:
+    if hasattr(mod, "finding_matches"):
+        # the module decides (it may accept several clauses for one cause)
+        if finding.get("clause") and finding["clause"] != vj["clause"] and vj["clause"] not in finding.get("clauses", []):
+            return False
+        return bool(mod.finding_matches(finding, vj))
     if finding.get("clause") and finding["clause"] != vj["clause"]:
         return False
-    if hasattr(mod, "finding_matches"):
-        return bool(mod.finding_matches(finding, vj))
     sigs = finding.get("sigs")
     if sigs is not None:
         return vj.get("sig") in sigs
